@@ -96,33 +96,44 @@ def check_src(crate, rep, cfg):
                 return out
             ra, rb = root(la, ".name"), root(lb, ".source")
             pairs.append(ra is not None and ra == rb)
-    ok = len(pairs) == 2 and all(pairs)
+    ok = len(pairs) in (1, 2) and all(pairs)       # two return sites, or one after `let tpl = if .. { self.template } else { &templates[..] }`
     # (self.template.name, self.template.source) is the right pair only when the chunk belongs to self.template: that return sits on the
     # equality edge of `self.template.name == chunk.name` and on no other (an `||` with another condition gives the block a second way in)
     ef_rt = EdgeFacts(rt, crate)
     own_ok, n_own = True, 0
+    # the equality test and its true-edge targets
+    eq_true, eq_calls = [], set()
+    for sb in sorted(rt.reachable):
+        if rt.term(sb)["k"] != "switch":
+            continue
+        for tgt, fl in ef_rt.facts_for_switch(sb).items():
+            for f in fl:
+                if f[0] == "call" and (f[1].endswith("::eq") and f[3] is True or f[1].endswith("::ne") and f[3] is False) and tgt != sb:
+                    ct = rt.term(f[4])
+                    sides = [tr.operand(a) for a in ct["args"][:2]]
+                    a_own = any(sd and all(l.kind == "param" and l.detail == 1 and ".template" in l.projs and ".name" in l.projs for l in sd) for sd in sides)
+                    a_chunk = any(sd and all(l.kind == "param" and l.detail == 2 and ".name" in l.projs for l in sd) for sd in sides)
+                    if a_own and a_chunk:
+                        eq_true.append(tgt)
+                        eq_calls.add(f[4])
+    # every read of self.template (as a whole, or its name / source) that is not part of the comparison itself sits under that edge
     for bb, idx_, s_ in rt.stmts():
-        if idx_ != "t" and s_["k"] == "assign" and s_["pl"]["l"] == 0 and s_["rv"]["k"] == "agg" and s_["rv"]["ak"] == "tuple":
-            la = tr.operand(s_["rv"]["ops"][0])
-            if la and all(l.kind == "param" and l.detail == 1 and ".template" in l.projs for l in la):
-                n_own += 1
-                good = False
-                for sb in sorted(rt.reachable):
-                    if rt.term(sb)["k"] != "switch" or not rt.dominates(sb, bb) or sb == bb:
-                        continue
-                    for tgt, fl in ef_rt.facts_for_switch(sb).items():
-                        for f in fl:
-                            if f[0] == "call" and (f[1].endswith("::eq") and f[3] is True or f[1].endswith("::ne") and f[3] is False) and rt.dominates(tgt, bb) and tgt != sb:
-                                ct = rt.term(f[4])
-                                sides = [tr.operand(a) for a in ct["args"][:2]]
-                                a_own = any(all(l.kind == "param" and l.detail == 1 and ".template" in l.projs and ".name" in l.projs for l in sd) and sd for sd in sides)
-                                a_chunk = any(all(l.kind == "param" and l.detail == 2 and ".name" in l.projs for l in sd) and sd for sd in sides)
-                                if a_own and a_chunk:
-                                    good = True
-                own_ok = own_ok and good
+        if idx_ == "t" or s_.get("k") != "assign" or s_["rv"]["k"] not in ("use", "ref"):
+            continue
+        pl = s_["rv"]["op"]["pl"] if s_["rv"]["k"] == "use" and s_["rv"]["op"]["k"] in ("copy", "move") else (s_["rv"]["pl"] if s_["rv"]["k"] == "ref" else None)
+        if pl is None or pl["l"] != 1:
+            continue
+        fs = [p for p in pl_projs(pl) if p.startswith(".")]
+        if not fs or fs[0] != ".template" or fs[-1] not in (".template", ".name", ".source"):
+            continue
+        if any(rt.dominates(bb, c) for c in eq_calls):
+            continue        # operands of the comparison
+        n_own += 1
+        if not any(rt.dominates(t0, bb) for t0 in eq_true):
+            own_ok = False
     rep.add("C12.SRC", "C12.SRC:report_target:own-template-only-for-own-chunk", own_ok and n_own >= 1, rt.where(0), "report_target answers with self.template's (name, source) only on the "
             "edge where self.template.name == chunk.name holds" + ("" if own_ok and n_own >= 1 else " — VIOLATED: a chunk of another template can be reported against self.template's source"))
-    rep.add("C12.SRC", "C12.SRC:report_target:same-template", ok, rt.where(0), "both results of report_target are (&t.name, &t.source) of the same template t (2 return sites)"
+    rep.add("C12.SRC", "C12.SRC:report_target:same-template", ok, rt.where(0), "every result of report_target is (&t.name, &t.source) of one and the same template t"
             + ("" if ok else " — VIOLATED: %s" % pairs))
     # registration-time reports: name/source of the same tpl
     n = 0
